@@ -48,10 +48,16 @@ impl AstCache {
             let path = entry.path();
 
             if path.is_file() && path.extension().is_some_and(|ext| ext == "rs") {
-                // Skip target directory and other build artifacts
-                if path.to_string_lossy().contains("/target/")
-                    || path.to_string_lossy().contains("/.git/")
-                {
+                // Skip target directory and other build artifacts. Only directories below the
+                // project path count: the project itself may live under a directory that is
+                // called `target` (e.g. when an absolute project path is given)
+                let relative = path.strip_prefix(project_path).unwrap_or(path);
+                if relative.components().any(|component| {
+                    matches!(
+                        component.as_os_str().to_str(),
+                        Some("target") | Some(".git")
+                    )
+                }) {
                     continue;
                 }
 
